@@ -46,6 +46,8 @@ def flags_of_preset(p):
 
 def predicates(ctx, cfg, env, td, B):
     name, n = cfg["env"], cfg["n"]
+    if name in ("pdp", "mdcpdp"):
+        n += n % 2  # documented: an odd number of locations is rounded up to the next even number (pairs)
     g = env.generator
     p = P(ctx, cfg)
     keys = set(str(k) for k in td.keys())
@@ -111,7 +113,7 @@ def predicates(ctx, cfg, env, td, B):
     elif name == "pdp":
         if need("locs", "depot"):
             p.check("shape", shape_is(td["locs"], B, n, 2) and shape_is(td["depot"], B, 2), "shapes")
-            p.check("even_pairs", n % 2 == 0, "odd number of pickup/delivery nodes")
+            p.check("even_pairs", td["locs"].shape[1] % 2 == 0 and g.num_loc % 2 == 0, f"odd number of pickup/delivery nodes ({td['locs'].shape[1]} generated, generator.num_loc={g.num_loc})")
             p.check("coords_in_bounds", in_range(td["locs"], g.min_loc, g.max_loc) and in_range(td["depot"], g.min_loc, g.max_loc), "coordinates outside bounds")
     elif name == "mtsp":
         if need("locs", "num_agents"):
@@ -129,6 +131,7 @@ def predicates(ctx, cfg, env, td, B):
         if need("locs", "depot", "capacity", "lateness_weight"):
             nd = cfg.get("depots", 2)
             p.check("shape", shape_is(td["locs"], B, n, 2) and shape_is(td["depot"], B, nd, 2) and shape_is(td["capacity"], B, nd), f"shapes locs {tuple(td['locs'].shape)} depot {tuple(td['depot'].shape)} capacity {tuple(td['capacity'].shape)}")
+            p.check("even_pairs", td["locs"].shape[1] % 2 == 0 and g.num_loc % 2 == 0, f"odd number of pickup/delivery nodes ({td['locs'].shape[1]} generated, generator.num_loc={g.num_loc})")
             p.check("capacity_in_range", in_range(td["capacity"], g.min_capacity, g.max_capacity), "capacity outside range")
             p.check("lateness_in_range", in_range(td["lateness_weight"], g.min_lateness_weight, g.max_lateness_weight), "lateness weight outside range")
     elif name == "mtvrp":
